@@ -443,7 +443,8 @@ META = {
             "get_moments_of_inertia failed for every input), control dependence of wrapping on the component's pbc flag, "
             "normal forms of the matrix conventions (to_scaled is the algebraic inverse of to_cartesian for every cell), "
             "effect/def-use rules for swap_basis and get_minimized_cell. Value-level identities (exact lengths, centring) "
-            "are not decided.",
+            "are not decided."
+            " Also: get_minimized_cell reads only unwrapped scaled positions (including through callees), the centre of mass uses the circular mean exactly on the component's own pbc flag, to_scaled/to_cartesian normal forms, complete_cell = scaled unit normal of the raw inputs.",
     "note": "trusted: CPython ast, the repository model's call resolution, the numpy/ASE API tables of the effect analysis; "
             "free-algebra normal forms assume np.dot/solve/inv/.T have their documented meaning.",
     "technique": "signature conformance over the resolved call graph + control-dependence + matrix-convention normal forms + effect analysis",
